@@ -66,7 +66,7 @@ def check_variant(ctx, k, kind, bound):
     adversarial(ctx)
     base = ctx.sandbox_base(32)
     p = ctx.sym("p", 64)
-    if "_vol" in k or k == "k_cav_volptr_long":
+    if "_vol" in k or k in ("k_cav_volptr_long", "k_cav_volptr_struct"):
         ctx.assume(z3.UGE(p, base), z3.ULE(p - base, BV(SIZE - 4, 64)))
     elif kind == "arr":
         # these kernels dereference the pointer themselves before calling rlbox: the application has null-checked it
@@ -213,7 +213,7 @@ def check_narrow(ctx, k, abits):
 
 VARIANTS = [("k_cav_vol_int", "val"), ("k_cav_vol_long", "val"), ("k_cav_ptr_int", "ptr"), ("k_cav_volptr_long", "ptr"), ("k_cav_struct", "struct"),
             ("k_cav_arr", "arr"), ("k_cavr", "range"), ("k_cavs_unique", "string_u"), ("k_cavs_string", "string_s"), ("k_deny_copy", "deny"),
-            ("k_cavs_vol_unique", "string_u"), ("k_cavs_vol_string", "string_s"), ("k_cav_arr2d", "arr"), ("k_cavba_vol", "bufaddr"), ("k_cavr_vol", "range"), ("k_cavr_char", "range")]
+            ("k_cavs_vol_unique", "string_u"), ("k_cavs_vol_string", "string_s"), ("k_cav_arr2d", "arr"), ("k_cavba_vol", "bufaddr"), ("k_cavr_vol", "range"), ("k_cavr_char", "range"), ("k_cav_volptr_struct", "struct")]
 
 
 def check_seq(ctx, k, kind):
@@ -221,7 +221,7 @@ def check_seq(ctx, k, kind):
     base = ctx.sandbox_base(32)
     b0 = 0x300000000
     mem = {b0 + 0x40 + i: v for i, v in enumerate(b"hello\0zz" + bytes([0x11, 0x22, 0x33, 0x44, 0, 0, 0, 0, 9, 8, 7, 6, 5, 4, 3, 2]))}
-    if "_vol" in k or k == "k_cav_volptr_long":
+    if "_vol" in k or k in ("k_cav_volptr_long", "k_cav_volptr_struct"):
         mem = {b0 + 0x40: 0x80, b0 + 0x41: 0, b0 + 0x42: 0, b0 + 0x43: 0}
         mem.update({b0 + 0x80 + i: v for i, v in enumerate(b"abc\0defg")})
     ctx.eng.max_strlen = 8
